@@ -49,6 +49,7 @@ ASSUMPTIONS = [
     "scipy RK45, numba, numpy are trusted",
 ]
 FAULT_KINDS = ["ctrl:always", "ctrl:after", "ctrl:window", "ctrl:at_zero",
+               "ctrl:at_end", "start_state_out_of_bounds",
                "ctrl:state", "plant:always", "plant:after", "plant:window",
                "plant:state", "plant:diverges_by_itself"]
 PROBES = ["outcome:full", "outcome:shortened", "outcome:failure",
@@ -103,25 +104,34 @@ def generate(rng: random.Random, batch: dict) -> dict:
             if i != j and rng.random() < 0.3:
                 A[i][j] = _rf(rng, -1.0, 1.0)
     B = [[_rf(rng, -1.0, 1.0) for _ in range(cd)] for _ in range(sd)]
+    if rng.random() < 0.08:
+        B = [[0.0] * cd for _ in range(sd)]     # equations ignore the control
     K = [[_rf(rng, -1.0, 1.0) for _ in range(sd)] for _ in range(cd)]
     p = rng.choice([0.0, 1.0, -1.0, _rf(rng, -3.0, 3.0)])
     legs = []
     for _ in range(rng.choice([1, 1, 2, 3])):
-        legs.append({"s0": [_rf(rng, -1.0, 1.0) for _ in range(sd)],
-                     "test": rng.random() < 0.4})
+        s0 = [_rf(rng, -1.0, 1.0) for _ in range(sd)]
+        if batch.get("faults") and rng.random() < 0.06:
+            # a starting state on or beyond the sanity bound
+            s0[rng.randrange(sd)] = rng.choice(
+                [1e10, -1e10, 1.5e10, 9.999e9, -9.999e9])
+        legs.append({"s0": s0, "test": rng.random() < 0.4})
     tsteps = rng.choice([10, 11, 20, 50, 100, 400])
     rsteps = rng.choice([10, 13, 30, 100, 250])
-    ttime = rng.choice([0.5, 1.0, 2.0, 5.0, 10.0, 50.0])
-    rtime = rng.choice([0.5, 1.0, 3.0, 8.0, 20.0, 50.0])
+    ttime = rng.choice([0.5, 1.0, 2.0, 5.0, 10.0, 50.0, 1e-3, 1.0 / 3.0, 0.1])
+    rtime = rng.choice([0.5, 1.0, 3.0, 8.0, 20.0, 50.0, 1e-6, 0.7, 2.0 / 3.0])
     fault = {"kind": "none"}
     if batch.get("faults"):
         target = rng.choice(["ctrl", "ctrl", "plant"])
         kinds = ["always", "after", "after", "window", "window", "state"]
         if target == "ctrl":
             kinds.append("at_zero")
+            kinds.append("at_end")
         kind = rng.choice(kinds)
         tmax = max(ttime, rtime)
         t1 = _rf(rng, 0.0, tmax)
+        if kind == "at_end":
+            t1 = min(ttime, rtime)    # bad from the earliest final output time
         width = rng.choice([0.0, 1e-3, 0.01, 0.1, 1.0, 10.0])
         fault = {"kind": kind, "target": target,
                  "t1": fhex(t1), "t2": fhex(t1 + width),
@@ -220,6 +230,8 @@ def _cond(fault: dict):
         return lambda t, s: t1 <= t <= t2
     if kind == "at_zero":
         return lambda t, s: t == 0.0
+    if kind == "at_end":
+        return lambda t, s: t >= t1
     if kind == "state":
         return lambda t, s: abs(s[k % len(s)]) > r
     raise ValueError(kind)
@@ -399,6 +411,14 @@ def execute(doc: dict) -> dict:
                            f"{where}: result shape {ode.shape}, expected "
                            f"({steps}|1, {dim})")
             break
+        if any(not abs(float(v)) < 1e10 for v in s0):
+            core.bump(res["faults"], "start_state_out_of_bounds")
+            if ode.shape[0] != 1:
+                core.violation(
+                    res, "value-out-of-bounds",
+                    f"{where}: the starting state {list(s0)} is outside "
+                    f"+-1e10 but {ode.shape[0]} rows were returned")
+                break
         if ode.shape[0] == 1 and steps != 1:
             outcome = "failure"
             if closed is not None and cond is None and float(np.max(
